@@ -3,7 +3,7 @@ import Octo.Lemmas.SqlExpr
 # Round trip of table expressions (C30)
 -/
 set_option linter.unusedSimpArgs false
-namespace Octo.Sql
+namespace Octo.SqlSyn
 
 /-- tokens that may follow a table factor: what may follow a table reference, or the start of a join -/
 def followFactor : List Tok → Bool
@@ -510,4 +510,4 @@ theorem tblRef_rt (t : Tbl) (hok : okT t = true) (hd : depthT t ≤ d) (rest : L
 
 end level
 
-end Octo.Sql
+end Octo.SqlSyn
